@@ -418,6 +418,23 @@ def strip(s):
     return re.sub(r'\s+', '', s)
 
 
+def text_with_margins(node):
+    """textContent, with the two arguments of a \\marginpar (kept as attributes, not as children) at the place where it stands"""
+    if node.nodeType == node.TEXT_NODE:
+        return str(node)
+    if getattr(node, 'str', None) is not None:
+        return node.str
+    out = []
+    if node.nodeName == 'marginpar':
+        for k in ('left', 'right'):
+            v = node.attributes.get(k)
+            if v is not None:
+                out.append(text_with_margins(v))
+    for c in node.childNodes:
+        out.append(text_with_margins(c))
+    return ''.join(out)
+
+
 def run_tex(case, st):
     from plasTeX.TeX import TeX
     body = case['pre'] + case['body']
@@ -434,7 +451,7 @@ def run_tex(case, st):
         tex = TeX()
         tex.input(src)
         doc = tex.parse()
-        got = doc.textContent
+        got = text_with_margins(doc) if 'marginpar' in case['kinds'] else doc.textContent
     except common.CaseTimeout:
         raise
     except Exception as e:
